@@ -19,15 +19,18 @@ func (d Duration) MarshalText() ([]byte, error) {
 	}
 
 	out := "PT"
+	// Work on the unsigned magnitude so that the most negative duration,
+	// whose negation does not fit an int64, is formatted correctly.
+	u := uint64(d)
 	if d < 0 {
-		d *= -1
+		u = -u
 		out = "-" + out
 	}
 
-	h := time.Duration(d) / time.Hour
-	m := time.Duration(d) % time.Hour / time.Minute
-	s := time.Duration(d) % time.Minute / time.Second
-	ns := time.Duration(d) % time.Second
+	h := u / uint64(time.Hour)
+	m := u % uint64(time.Hour) / uint64(time.Minute)
+	s := u % uint64(time.Minute) / uint64(time.Second)
+	ns := u % uint64(time.Second)
 	if h > 0 {
 		out += fmt.Sprintf("%dH", h)
 	}
@@ -115,11 +118,24 @@ func (d *Duration) UnmarshalText(text []byte) error {
 			out += time.Duration(m) * time.Minute
 		}
 		if match[3] != "" {
-			s, err := strconv.ParseFloat(match[3], 64)
+			// Parse the seconds with integer arithmetic: going through a
+			// float64 loses a nanosecond for many fractional values.
+			whole, frac, _ := strings.Cut(match[3], ".")
+			s, err := strconv.Atoi(whole)
 			if err != nil {
 				return fmt.Errorf("invalid duration seconds (%s): %s", text, err)
 			}
-			out += time.Duration(s * float64(time.Second))
+			out += time.Duration(s) * time.Second
+			if len(frac) > 9 {
+				frac = frac[:9]
+			}
+			if frac != "" {
+				ns, err := strconv.Atoi(frac + strings.Repeat("0", 9-len(frac)))
+				if err != nil {
+					return fmt.Errorf("invalid duration seconds (%s): %s", text, err)
+				}
+				out += time.Duration(ns)
+			}
 		}
 	}
 
